@@ -28,7 +28,9 @@ def shape(s):
     if e["k"] == "err":
         ndet = len(e["details"])
         err = "code" if e["msg"] == 0 else ("msg" if ndet == 0 else "details")
-    return dict(st=t["st"], nreq=len(reqs), nresp=nresp, hasdef=d["k"] != "none", err=err,
+    hk = {(h["l"], h["id"], h["bin"]) for h in d.get("hdrs", [])}
+    shared = any((h["l"], h["id"], h["bin"]) in hk for h in d.get("trls", []))
+    return dict(st=t["st"], nreq=len(reqs), nresp=nresp, hasdef=d["k"] != "none", err=err, shared=shared,
                 mt1=reqs[0]["mt"] if reqs else "-", more_resp_than_req=bool(d["k"] == "sdef" and nresp > len(reqs)),
                 more_req_than_resp=bool(t["st"] in ("server", "half", "full") and len(reqs) > nresp))
 
@@ -40,12 +42,13 @@ def pick_e2e(ctx, wf, n):
     for s in wf:
         sh = shape(s)
         key = (sh["st"], min(sh["nreq"], 3), min(sh["nresp"], 3) if sh["hasdef"] else -1, sh["err"],
-               sh["more_resp_than_req"], sh["more_req_than_resp"])
+               sh["more_resp_than_req"], sh["more_req_than_resp"], sh["shared"])
         buckets.setdefault(key, []).append(s)
     keys = sorted(buckets)
     rnd.shuffle(keys)
     # make sure the shapes the corpus lacks are in: full duplex with n<m, n>m, error with no response
-    keys.sort(key=lambda k: 0 if (k[0] == "full" and (k[4] or k[5])) else 1)
+    # ... and one metadata name in headers and trailers of a response that has no message
+    keys.sort(key=lambda k: 0 if (k[0] == "full" and (k[4] or k[5])) or (k[6] and k[2] == 0) else 1)
     for k in keys:
         rnd.shuffle(buckets[k])
     chosen = []
